@@ -20,6 +20,9 @@ def run(chk):
     # an abort followed by a panic (with and without an OnPanic hook): the abort mark must not outlive the request
     c04.instance(chk, "abort-panic", "all", 1, 3, ["N", "A", "NP", "AN", "P"], kinds=("route", "notfound"), only=ABORT,
                  hooks=("none", "status"), extra_invs=("DispatchOK",))
+    # the router's built-in 405 / 404 handler behind global middleware that aborts (or not): it is the last handler of the chain
+    c04.instance(chk, "builtin-405", "alltail", 2, 4 if thorough else 3, ["N", "R"] + ab, base="D405", kinds=("na-builtin",), only=ABORT, extra_invs=("DispatchOK",))
+    c04.instance(chk, "builtin-404", "alltail", 2, 4 if thorough else 3, ["N", "R"] + ab, base="D404", kinds=("nf-builtin",), only=ABORT, extra_invs=("DispatchOK",))
     c04.library(chk, ABORT, maxn=3 if thorough else 2, extra=("N", "NA"))
     from . import c08
     c08.redispatch(chk, ABORT)
